@@ -6,6 +6,15 @@ props = [json.loads(l) for l in open(os.path.join(HERE, 'properties.jsonl'))]
 
 # id -> (category, technique, level text, level note)
 CHECKS = {
+ 'C12': ('fault_enumeration', 'Hypothesis-generated fault plans (backend x operation x position x kind x run length) against fault-injecting file primitives and fake S3/B2 transports; small grid enumerated exhaustively in the thorough tier',
+         'Transient faults within the retry budget must be masked with exactly the intended bytes/objects, persistent ones must end in a bounded error; both clauses are evaluated on the state of the service/directory and of download sinks.',
+         'Retry budgets are read from the decorators; fake services follow the published APIs; sleeps of the backoff library are removed.'),
+ 'C13': ('exploration', 'Hypothesis stateful machine running Local, S3Compatible (fake S3) and B2 (fake B2) in lock-step against a dict model',
+         'Every return value and, after every step, the live name set of each store are compared with a plain name-to-bytes map, over generated names/prefixes, listing page sizes and local repository path spellings, incl. leftover temporaries of killed uploaders.',
+         'Fidelity of vk/fakes3.py and vk/fakeb2.py to the published APIs; names ending in .tmp and "."/".." segments are outside the domain.'),
+ 'C16': ('exploration', 'Hypothesis-generated request sequences captured at the HTTP transport and re-verified by an independent SigV4 implementation (self-tested on the AWS documentation examples)',
+         'Canonical request, string to sign and signature are recomputed from the wire bytes for every request incl. retried and paged ones, with an injected clock crossing UTC midnight; payload hash and content-length are compared with the body sent.',
+         'Requests are observed after httpx normalisation; one open known finding (dot segments) is excluded by signature.'),
  'C04': ('fault_enumeration', 'Hypothesis-generated corruption plans (bit flip/truncate/append/swap/replay/copy/delete, singly or combined) with a raise-or-original-bytes oracle and fixed positive controls',
          'Every stored chunk/snapshot object and every corruption family is reachable by the generator; restore must raise or reproduce the original tree (twice when a cache directory is in use). Sampled, not exhaustive over offsets.',
          'Trusts the model of which snapshot/file versions a restore selects; a removed snapshot object is treated like a deleted snapshot.'),
